@@ -171,6 +171,11 @@ func deterministicAccount(seed uint64, idx int, role string) common.Address {
 
 func init() {
 	logger.SetLevel(0)
+	if l := os.Getenv("VERIF_KLOG"); l != "" {
+		var n int
+		fmt.Sscan(l, &n)
+		logger.SetLevel(n)
+	}
 }
 
 // BuildGenesis renders and parses a genesis document for the given keys.
